@@ -157,7 +157,17 @@ func buildAuction(e *env.Env, prefix string, sp aSpec) *aState {
 		setBidSeq(e, sp.id, uint64(nb))
 	}
 
-	st.donS, st.donP, st.donV = nonnegInt(prefix+"donS"), nonnegInt(prefix+"donP"), nonnegInt(prefix+"donV")
+	// third-party donations: any amount below 2^64 in the extreme-amount tier (they only add slack)
+	donBits := amtBits()
+	if donBits > 128 {
+		donBits = 64
+	}
+	st.donS, st.donP, st.donV = nd.IntN(prefix+"donS", donBits), nd.IntN(prefix+"donP", donBits), nd.IntN(prefix+"donV", donBits)
+	if amtBits() > 128 {
+		// reachable states only: what was reserved for the recorded bids fitted the bank's 256-bit amounts
+		nd.Assume(st.reserved.LT(nd.ZStr("28948022309329048855892746252171976963317496166410141009864396001978282409984")))
+		nd.Assume(st.sold.LT(nd.ZStr("28948022309329048855892746252171976963317496166410141009864396001978282409984")))
+	}
 	zero := math.ZeroInt()
 	owedS, owedP, owedV := zero, zero, zero
 
